@@ -33,7 +33,7 @@ RULE = ('one random scene per case: 1-8 point sources in 1-4 clusters (members 1
         'init table, mask, error, options)')
 CLASSES = ['isolated', 'grouped', 'interleaved', 'edge', 'masked', 'nonfinite', 'error', 'localbkg', 'bounds',
            'fixed', 'free_shape', 'finder', 'supplied_group', 'supplied_id', 'maxiters', 'perturbed', 'units',
-           'one_group', 'starved', 'fit_2dgaussian', 'grouper_only']
+           'one_group', 'starved', 'fit_2dgaussian', 'shared_model', 'grouper_only']
 MUST_REACH = ['photutils.psf.photometry:PSFPhotometry.__call__',
               'photutils.psf.photometry:PSFPhotometry._prepare_init_params',
               'photutils.psf.photometry:PSFPhotometry._make_psf_model',
@@ -151,6 +151,8 @@ def _options(case):
         o['bkg'] = _pick(rng, ['column', 'column_per_source', 'estimator', 'estimator_plane'])
         o['kind'] = _pick(rng, GAUSS_FIXED + ['imagepsf'])
         o['grouping'] = _pick(rng, ['none', 'grouper'] + (['big', 'big'] if o['bkg'] == 'column_per_source' else []))
+        if o['bkg'] in ('column', 'column_per_source') and rng.random() < 0.4:
+            o['ids'] = 'permutation'          # unsorted id column + per-source background (include_localbkg rendering)
     elif cls == 'bounds':
         o['sizes'] = nsrc_sizes()
         o['bounds'] = _pick(rng, ['loose', 'binding', 'binding', 'tuple', 'xnone', 'ynone'])
@@ -515,6 +517,8 @@ def run_case(case):
         return _case_grouper(case)
     if case.cls == 'fit_2dgaussian':
         return _case_fit2d(case)
+    if case.cls == 'shared_model':
+        return _case_shared_model(case)
     import astropy.units as u
     from astropy.modeling.fitting import NonFiniteValueError
     from astropy.nddata import NDData, StdDevUncertainty
@@ -1073,6 +1077,8 @@ def run_case(case):
             case.close(_col(t3, c), _col(tbl, c), 'finder_init_equals_same_positions_as_init_params', mech=dict(fm, col=c))
         return
     rels = ['separate', _pick(rng, ['permute', 'scale_k', 'scale_k', 'iterative', 'model_image', 'separate'])]
+    if o['bkg'] in ('column', 'column_per_source'):
+        rels.append('model_image')
     if o['nddata'] or o['units']:
         rels = [r for r in rels if r in ('iterative', 'model_image', 'permute')]
     for rel in dict.fromkeys(rels):
@@ -1361,7 +1367,11 @@ def _rel_model_image(case, p, tbl, s, o, model, call_data, data, mech):
             rows, cols, _, _ = O.fit_window(s.shape, (ps, ps), _col(tbl, 'x_fit')[k], _col(tbl, 'y_fit')[k])
             add[np.ix_(rows, cols)] += _col(tbl, 'local_bkg')[k]
         case.close(mib, mi2 + add, 'model_image_include_localbkg', rtol=1e-12,
-                   atol=1e-12 * float(np.max(np.abs(mi2)) + 1), mech=mm)
+                   atol=1e-12 * float(np.max(np.abs(mi2)) + 1), mech=dict(mm, ids=o['ids'], bkg=o['bkg']))
+        rb = np.asarray(p.make_residual_image(d, psf_shape=ps, include_localbkg=True))
+        with np.errstate(invalid='ignore'):
+            case.close(rb, data - (mi2 + add), 'residual_include_localbkg', rtol=1e-12,
+                       atol=1e-12 * float(np.max(np.abs(mi2)) + 1), mech=dict(mm, ids=o['ids'], bkg=o['bkg']))
 
 
 def _check_metrics(case, p, tbl, s, o, model, data, mask, error, facts, R, fitgroup, mech):
@@ -1398,6 +1408,166 @@ def _check_metrics(case, p, tbl, s, o, model, data, mask, error, facts, R, fitgr
                 cc.append(float(resid[iy, ix] / ff))
             ok = any(abs(cfit[k] - c) <= 1e-6 * abs(c) + 1e-12 for c in cc)
             case.check(ok, 'cfit_vs_definition', mech, row=k, obs=float(cfit[k]), exp=cc)
+
+
+# ----------------------------------------------------------------------------------------
+SHARED_KINDS = {'cgprf': ['fwhm'], 'cgpsf': ['fwhm'], 'gprf': ['x_fwhm', 'y_fwhm', 'theta'],
+                'gpsf': ['x_fwhm', 'y_fwhm', 'theta'], 'moffat': ['alpha', 'beta'], 'cgprf_free': []}
+
+
+def _case_shared_model(case):
+    """History over ONE PSF model object reused for two or three exposures with a different *fixed* shape parameter
+    each time (assigned on the shared object between the fits, as for a sequence of exposures with varying seeing),
+    each exposure fitted by its own PSFPhotometry / IterativePSFPhotometry(maxiters=1) object (or by one object called
+    repeatedly).  Afterwards the EARLIER objects are asked for model / residual images and their results table.
+    The docstrings say 'psf_model: the PSF model to fit to the data' and make_model_image: 'create a 2D image from the
+    fit PSF models' - nothing makes the rendered images a function of later edits of the caller's model, so they are
+    judged by the same comparisons as everywhere else: residual ~ 0, model image == own render of the results table
+    with the model as it was when the exposure was fitted, table unchanged, truth recovered."""
+    import copy as _copy
+    from astropy.table import Table
+    from photutils.psf import IterativePSFPhotometry, PSFPhotometry, SourceGrouper
+    rng = case.rng
+    kind = _pick(rng, ['cgprf', 'cgprf', 'cgpsf', 'gprf', 'gpsf', 'moffat', 'cgprf_free'])
+    fs = _pick(rng, [(5, 5), (7, 7), (9, 9), (7, 5)])
+    nexp = int(rng.integers(2, 4))
+    driver = _pick(rng, ['new_object', 'new_object', 'iterative', 'same_object_last_only'])
+    fwhm0 = float(rng.uniform(2.0, 4.0))
+    shared, info = G.build_model(rng, kind, fwhm0, (60, 60))
+    o = dict(kind=kind, fit_shape=fs)
+    mech = {'cls': case.cls, 'model': kind, 'driver': driver}
+    case.params = dict(kind=kind, fit_shape=list(fs), nexp=nexp, driver=driver, values=[])
+    exposures = []
+    same_obj = None
+    digest_parts = []
+    for e in range(nexp):
+        # (2) the caller edits the shared model object: new seeing for this exposure
+        fwhm = float(rng.uniform(2.0, 4.0))
+        if kind in ('cgprf', 'cgpsf', 'cgprf_free'):
+            shared.fwhm = fwhm
+        elif kind in ('gprf', 'gpsf'):
+            shared.x_fwhm = fwhm
+            shared.y_fwhm = fwhm * float(rng.uniform(0.7, 1.4))
+            shared.theta = float(rng.uniform(0, 180))
+        else:
+            beta = float(rng.uniform(2.5, 4.5))
+            shared.beta = beta
+            shared.alpha = fwhm / (2.0 * np.sqrt(2 ** (1.0 / beta) - 1))
+        case.params['values'].append(round(fwhm, 3))
+        sizes = [1] * int(rng.integers(1, 4)) if kind == 'moffat' or rng.random() < 0.5 else \
+            [int(_pick(rng, [1, 2])) for _ in range(int(rng.integers(1, 4)))]
+        if kind == 'moffat':
+            sizes = [int(_pick(rng, [1, 2, 3]))]
+        dsep = G.isolation_distance(dict(fwhm=fwhm, support=None, ratio=1.4), max(fs) / 2.0)
+        xy, cid, shape = G.gen_clusters(rng, sizes, fwhm, dsep, edge_pad=max(fs) / 2.0 + 3)
+        n = len(xy)
+        truth = Table()
+        truth['x'], truth['y'] = xy[:, 0], xy[:, 1]
+        truth['flux'] = np.exp(rng.uniform(np.log(50), np.log(500), n))
+        for name in info['free']:
+            truth[name] = fwhm * rng.uniform(0.95, 1.05, n)
+        data, stack = G.render(shared, info, truth, shape)
+        r = 0.7 * np.sqrt(rng.random(n))
+        a = rng.uniform(0, 2 * np.pi, n)
+        init = Table()
+        init['x'] = xy[:, 0] + r * np.cos(a)
+        init['y'] = xy[:, 1] + r * np.sin(a)
+        init['flux'] = np.asarray(truth['flux']) * rng.uniform(0.7, 1.4, n)
+        for name in info['free']:
+            init[name] = np.asarray(truth[name]) * rng.uniform(0.9, 1.15, n)
+        xi, yi = np.asarray(init['x']), np.asarray(init['y'])
+        sep = 2.4 * fwhm + 1.5
+        g = O.single_linkage(xi, yi, sep)
+        if kind == 'moffat':
+            sep = float(np.max(np.hypot(xi[:, None] - xi[None, :], yi[:, None] - yi[None, :])) * 1.5 + 10)
+            g = np.ones(n, dtype=int)
+        elif not O.same_partition(g, cid) or not O.tie_free(xi, yi, sep):
+            case.skip('init_offsets_broke_cluster_linkage')
+        if not (O.half_integer_free(xi) and O.half_integer_free(yi)):
+            case.skip('init_on_pixel_boundary')
+        peaks = np.abs(stack).reshape(n, -1).max(axis=1)
+        if G.contamination(stack, peaks, g, shape, fs, xi, yi) > 1e-9:
+            case.skip('unmodelled_neighbour_above_1e-9')
+        snapshot = _copy.deepcopy(shared)          # the oracle's own record of the model as fitted
+        if driver == 'iterative':
+            ph = IterativePSFPhotometry(shared, fs, _NoFinder(), grouper=SourceGrouper(sep), aperture_radius=3.0,
+                                        maxiters=1)
+        elif driver == 'same_object_last_only' and same_obj is not None:
+            ph = same_obj
+            ph.grouper = SourceGrouper(sep)        # the separation that suits this exposure's seeing
+        else:
+            ph = PSFPhotometry(shared, fs, grouper=SourceGrouper(sep))
+            same_obj = ph
+        tbl = ph(data, init_params=init)
+        exposures.append(dict(ph=ph, tbl=tbl, tbl0=tbl.copy(), data=data, snap=snapshot, truth=truth, shape=shape,
+                              g=g, peaks=peaks, e=e))
+        digest_parts += [data, xi, yi]
+        # prefix check: rendering right after the fit
+        _shared_checks(case, exposures[-1], info, o, dict(mech, when='right_after_fit'))
+    # (3) one more edit of the shared object, then QA on the EARLIER objects
+    if rng.random() < 0.5:
+        if kind in ('cgprf', 'cgpsf'):
+            shared.fwhm = float(rng.uniform(2.0, 4.0))
+        elif kind in ('gprf', 'gpsf'):
+            shared.y_fwhm = float(rng.uniform(2.0, 4.0))
+            shared.theta = float(rng.uniform(0, 180))
+        elif kind == 'moffat':
+            shared.beta = float(rng.uniform(2.5, 4.5))
+    case.digest = core.arr_digest(*digest_parts) + core.digest(case.params)
+    case.nontrivial = True
+    case.note('shared_model_exposures', nexp)
+    for ex in exposures:
+        if driver == 'same_object_last_only' and ex['ph'] is exposures[-1]['ph'] and ex is not exposures[-1]:
+            continue        # that object has been called again: its images describe the latest call (C09 territory)
+        _shared_checks(case, ex, info, o, dict(mech, when='after_later_exposures', later=len(exposures) - 1 - ex['e']))
+
+
+def _shared_checks(case, ex, info, o, mech):
+    ph, tbl, data, snap, truth, shape = ex['ph'], ex['tbl'], ex['data'], ex['snap'], ex['truth'], ex['shape']
+    n = len(truth)
+    s = G.Scene()
+    s.info, s.shape = info, shape
+    gs = O.group_sizes(ex['g'])
+    # the table handed out is not rewritten by later activity
+    for c in tbl.colnames:
+        case.close(_col(tbl, c), _col(ex['tbl0'], c), 'results_table_unchanged_by_later_calls', mech=dict(mech, col=(
+            c if c in COMPARE_COLS + ['id', 'group_id'] else 'shape')))
+    gok = case.check(O.same_partition(_col(tbl, 'group_id'), ex['g']), 'group_id_is_single_linkage_partition',
+                     dict(mech, grouping='grouper'), obs=_col(tbl, 'group_id').tolist(), exp=ex['g'].tolist())
+    case.check(np.array_equal(_col(tbl, 'group_size'), gs), 'group_size_is_cluster_size', dict(mech, grouping='grouper'))
+    if not gok:
+        return
+    # recovery (with the usual arbitration)
+    tx, ty, tf = np.asarray(truth['x']), np.asarray(truth['y']), np.asarray(truth['flux'])
+    okrec = True
+    for g in set(ex['g'].tolist()):
+        rows = [k for k in range(n) if ex['g'][k] == g]
+        tol = TOL_ISO if len(rows) == 1 else TOL_GRP
+        tag = 'isolated' if len(rows) == 1 else 'grouped'
+        dpos = max(max(abs(_col(tbl, 'x_fit')[k] - tx[k]), abs(_col(tbl, 'y_fit')[k] - ty[k])) for k in rows)
+        dfl = max(abs(_col(tbl, 'flux_fit')[k] / tf[k] - 1) for k in rows)
+        if dpos > tol['pos'] or dfl > tol['flux']:
+            if not _independent_fit_recovers(snap, tbl, rows, s, o, data, None, None, None, None, tx, ty, tf, tol):
+                case.note('recovery_undecided_independent_fit_also_left_basin')
+                okrec = False
+                continue
+        case.check(dpos <= tol['pos'], 'recovers_position', dict(mech, fit=tag), dpos=float(dpos))
+        case.check(dfl <= tol['flux'], 'recovers_flux', dict(mech, fit=tag), dflux=float(dfl))
+    if not okrec:
+        return
+    big = (2 * max(shape) + 1, 2 * max(shape) + 1)
+    tag = 'isolated' if gs.max() == 1 else 'grouped'
+    tol = TOL_ISO if gs.max() == 1 else TOL_GRP
+    res = np.asarray(ph.make_residual_image(data, psf_shape=big))
+    rr = float(np.max(np.abs(res))) / float(np.max(ex['peaks']))
+    case.dev(f'residual_over_peak_{tag}', rr)
+    case.check(rr <= tol['resid'], 'residual_image_is_zero', dict(mech, fit=tag), rel=rr)
+    mi = np.asarray(ph.make_model_image(shape, psf_shape=big))
+    own = _own_render(s, snap, tbl, shape)
+    case.close(mi, own, 'model_image_is_sum_of_fitted_models', rtol=1e-10, atol=1e-12 * float(np.max(np.abs(own))),
+               mech=dict(mech, relation='model_image'))
+    with np.errstate(invalid='ignore'):
+        case.close(res, data - mi, 'residual_is_data_minus_model_image', mech=dict(mech, relation='model_image'))
 
 
 # ----------------------------------------------------------------------------------------
